@@ -8,6 +8,7 @@
 -/
 import Mathlib.Data.List.Basic
 import Mathlib.Data.List.Infix
+import Mathlib.Data.List.Nodup
 import Mathlib.Tactic.Common
 import TfelVerif.C32.Lemmas
 import TfelVerif.C33.Model
@@ -564,8 +565,8 @@ theorem leadCode_of_leadB {L : α → Bool} {len : α → Nat} {rules : List (Li
   | nil => rw [h1] at this; cases this
   | cons h0 t =>
     simp only [h1] at this
-    simp only [Bool.and_eq_true, List.all_eq_true, Bool.not_eq_true', Nat.beq_eq_true_eq] at this
-    exact ⟨h0, t, rfl, this.1.1, fun c hc => by simp [this.1.2 c hc], this.2⟩
+    simp only [Bool.and_eq_true, List.all_eq_true, Bool.not_eq_true'] at this
+    exact ⟨h0, t, rfl, this.1.1, fun c hc => by simp [this.1.2 c hc], Nat.eq_of_beq_eq_true this.2⟩
 
 theorem good_of_checks {h L : α → Bool} {len : α → Nat} {rules : List (List α × List α)}
     (hc : classesB h rules = true) (hl : leadB L len rules = true)
@@ -596,7 +597,7 @@ theorem nodup_of_noDupGo : ∀ (l : List Nat) (seen : Nat), noDupGo l seen = tru
     have hbit : ∀ j ∈ ks, j ≠ k ∧ seen.testBit j = false := by
       intro j hj
       have := hseen j hj
-      rw [Nat.testBit_lor, Bool.or_eq_false_iff] at this
+      rw [Nat.testBit_or, Bool.or_eq_false_iff] at this
       refine ⟨?_, this.1⟩
       intro e
       have h2 := this.2
@@ -623,7 +624,7 @@ theorem eq_of_eqBytes : ∀ (a b : List Nat), eqBytes a b = true → a = b := by
     cases b with
     | nil => simp [eqBytes] at h
     | cons y ys =>
-      simp only [eqBytes, Bool.and_eq_true, Nat.beq_eq_true_eq] at h
-      rw [h.1, ih ys h.2]
+      simp only [eqBytes, Bool.and_eq_true] at h
+      rw [Nat.eq_of_beq_eq_true h.1, ih ys h.2]
 
 end TfelVerif.C33
